@@ -41,3 +41,7 @@ def _sc(vc, lower, upper, i):
     if vc.mode != "native":
         return None
     return max(abs(lower[i]), abs(upper[i]), upper[i] - lower[i])
+
+
+from contracts.mcmc_gibbs import gibbs_take_step
+contract("C04", "gibbs_take_step", native=False)(gibbs_take_step)
